@@ -221,6 +221,36 @@ pub fn build_pool(draws: usize) -> Pool {
     Pool { by_tag, texts }
 }
 
+/// Add, for every tag, contents generated from the documented field formats (fieldspec.rs) at minimum / maximum / random
+/// component lengths that the documented format matches and the field parser accepts — boundary-length values of every
+/// option, which the scenario draws never contain.
+pub fn add_spec_contents(pool: &mut Pool, rng: &mut Rng, per_len: usize) {
+    use crate::fmt::{Gen, Len};
+    let all = crate::fields::specs();
+    for sp in all.iter().filter(|s| s.members.is_empty()) {
+        for alt in &sp.alts {
+            for (len, reps) in [(Len::Min, 1usize), (Len::Max, 2), (Len::Rand, per_len)] {
+                for _ in 0..reps {
+                    for opt in [Some(true), Some(false), None] {
+                        let mut g = Gen { rng, len, violate: None, counter: 0, opt_all: opt, ccy: None };
+                        let c = g.make(alt);
+                        // keep out contents that would confuse the block structure at message level (a line starting with ':' or '-')
+                        if c.is_empty() || c.split('\n').any(|l| l.starts_with(':') || l.starts_with('-')) || c.contains("-}") || c.contains('{') || c.contains('}') {
+                            continue;
+                        }
+                        if crate::fields::documented(&all, sp, &c) && matches!(crate::fields::parse_named(&sp.name, &c), crate::fields::Outcome::Ok { .. }) {
+                            let v = pool.by_tag.entry(sp.tag.clone()).or_default();
+                            if v.len() < 600 && !v.contains(&c) {
+                                v.push(c);
+                            }
+                        }
+                    }
+                }
+            }
+        }
+    }
+}
+
 /// Field type accepts this content for this tag?  Used to keep only pool contents that the *field parser at
 /// that tag* accepts and re-emits unchanged (canonical spelling), so that message-level failures are about
 /// the layout, not about one odd field content.
